@@ -3,6 +3,7 @@ import json, os, random, shutil, time
 from .. import common as C, structs as S, valgen as V, refcodec as R, labgen as L
 
 LEAN_MODULES = ["ZvtVerif.Properties.C12"]
+TRANSLATED = {"structs"}      # translated tables this property consumes (a translator problem elsewhere does not break its tie)
 ASSUMPTIONS = ["well-formedness conditions of DESIGN.md §5.2 (positional before tagged, distinct representable tags, delimiting/exact rules)",
                "the generated crate is compiled with the working-tree zvt_derive / zvt_builder"]
 LAB = os.path.join(C.VERIF, "derive_lab")
